@@ -41,6 +41,28 @@ def run(chk):
         r05_3(chk, dx)
     if chk.want("R05.4") or chk.want("R05.5"):
         r05_45(chk, dx)
+    chk.rule("R05.7", "the atoms of from_xyz_file / from_xyz_files are the file's atoms: the XYZ reader hands on the collected elements and the parsed "
+                      "coordinates unchanged, and the constructors pass them to the density unchanged (= C16 R16.4 reader clauses)", 2)
+    if chk.want("R05.7"):
+        from ..inherit import inherit
+        n = inherit(chk, "R05.7", "c16", ["R16.4"], functions={"parse_xyz_string"})
+        fx = dp.ev("PromoleculeDensity.from_xyz_file")
+        chk.saw(DP, "PromoleculeDensity.from_xyz_file")
+        import re
+        rets = [re.sub(r"_it#\d+", "_it", r.value.key()) for r in fx.returns if r.value is not None]
+        fname = fx.param_names[1]
+        src = f"chmpy.fmt.xyz_file.parse_xyz_file({fname})"
+        from ..symex import seq_items
+        chk.need(len(fx.returns) == 1 and fx.returns[0].value.as_atom() and fx.returns[0].value.as_atom()[0] == "call" and len(fx.returns[0].value.as_atom()[2]) == 1,
+                 "PromoleculeDensity.from_xyz_file: the constructor call cls((elements, positions)) was not found")
+        pair = seq_items(fx.returns[0].value.as_atom()[2][0])
+        chk.need(pair and len(pair) == 2, "PromoleculeDensity.from_xyz_file: cls(...) is not handed an (elements, positions) pair")
+        ek = re.sub(r"_it#\d+", "_it", pair[0].key())
+        chk.ob("R05.7", DP, "PromoleculeDensity.from_xyz_file", "the positions handed to the density are the file's coordinates as parsed",
+               pair[1].key() == f"{src}[1]", fingerprint="xyz-ctor:positions", expected=f"{src}[1]", found=str(pair[1])[:160])
+        chk.ob("R05.7", DP, "PromoleculeDensity.from_xyz_file", "the atomic numbers are those of the file's elements in file order",
+               f"{src}[0][_it].atomic_number" in ek and f"(iter {src}[0] ())" in ek and "sorted" not in ek and "unique" not in ek,
+               fingerprint="xyz-ctor:elements", found=ek[:200])
     if chk.tier == "thorough" and chk.want("T05"):
         t05(chk, repo)
     chk.assume("float32 rounding, the numerical agreement with the tabulated densities and values within 0.3 A of a nucleus are not decided")
